@@ -70,6 +70,12 @@ class Hooks(W.Hooks):
                 if cur != val:
                     return ctx.fail(f"{si.kind}/{si.op}/held-row-changed-names",
                                     f"step {step}: a row taken earlier from table entry {tid} answered .{acc} with {val}, now {cur}")
+        if "key_vector" in si.info:
+            # an index vector handed to v[key] = ... is read, never written
+            kid, kvals = si.info["key_vector"]
+            ke = world.by_id(kid)
+            if ke is not None and list(ke.obj) != kvals:
+                return ctx.fail(f"write/{si.op}/index-vector-changed", f"step {step}: the key vector {kvals} reads {list(ke.obj)} after the assignment")
         allowed = set(si.may_change) if si.kind in ("write", "rename") else set()
         if si.kind in ("write", "rename"):
             tgt = world.by_id(si.info.get("target"))
@@ -118,5 +124,5 @@ def run(case, ctx):
 
 def parts(tier):
     mx = 30 if tier == "quick" else 60
-    return [Part("histories", run, strategy=lambda t: W.program(min_steps=6, max_steps=mx, extra_ops=["vec_tuple"] * 5 + ["set_int", "set_slice", "attr_assign", "row_index", "row_index", "rename_column", "tset_cell"]), examples=(4000, 48000), shards=(16, 16),
+    return [Part("histories", run, strategy=lambda t: W.program(min_steps=6, max_steps=mx, extra_ops=["vec_tuple"] * 5 + ["set_int", "set_slice", "attr_assign", "row_index", "row_index", "rename_column", "tset_cell", "set_index", "set_index"]), examples=(4000, 48000), shards=(16, 16),
                  floors={"programs_with_related_write": 0.1})]
